@@ -681,7 +681,7 @@ class SigmaNumber(SigmaType):
             if not isfinite(f):
                 raise ValueError("Invalid number")
             i = int(init_number)
-            if i == f:
+            if float(i) == f:  # integral: keep the exact integer (the float may be its rounding)
                 self.number = i
             else:
                 self.number = f
